@@ -34,6 +34,15 @@ def gen_scenario(rng, engine):
     outers = []
     for _ in range(rng.choice([1, 2, 2, 2, 3])):
         outers.append({'shape': rng.choice(SHAPES), 'extra': rng.random() < 0.4})
+    # spelling of the enclosing classes' reference to the nested class (E.gen_spelling covers the nested class itself
+    # and the module): quoted by hand where the nested class quotes its own annotations; drawn from the scenario text,
+    # not from the case stream (see E.gen_spelling)
+    sp = cm.get('spelling') or {}
+    if sp.get('quoted'):
+        import random
+        r = random.Random('holder|' + E.json.dumps([cm, outers], sort_keys=True))
+        for o in outers:
+            o['quoted'] = r.random() < 0.6
     targets = list(range(len(outers))) + ([-1] if own_meta else [])
     docs = E.gen_docs(cm, rng, 6)
     steps = []
@@ -67,7 +76,10 @@ def render(sc, iname, onames):
             L.append('        ' + it)
         if o['extra']:
             L.append('    pre: int')
-        L.append(f'    {hname}: {hty.format(I=iname)}')
+        hann = hty.format(I=iname)
+        if o.get('quoted'):
+            hann = repr(hann)               # the reference to the nested class written as a string
+        L.append(f'    {hname}: {hann}')
         src += '\n'.join(L) + '\n'
     return src
 
@@ -108,7 +120,7 @@ def build(sc):
     iname = model.fresh('N')
     onames = [model.fresh('R') for _ in sc['outers']]
     src = render(sc, iname, onames)
-    built = model.Built(T('any'), extra_src=E.SRC_EXTRA + src)
+    built = E.build_module(sc['cm'], src)       # the module's spelling (future import or not) is the nested class model's
     return built, built.get(iname), [built.get(n) for n in onames], src
 
 
@@ -239,8 +251,12 @@ def run(ctx, rng):
 
         def fail(si, what, src, sc=sc):
             ctx.fail(f'oracle:nest:{sc["cm"]["engine"]}', {'scenario': sc, 'step': si}, what, detail=src)
+        # the coverage hash needs string keys throughout: documents may carry int / bool top-level keys (a path head), so
+        # they go in through the typed encoding (before this, such scenarios died in the hash and were counted as
+        # build errors without being judged)
+        sc_enc = dict(sc, docs=[E.enc_doc(d) for d in sc['docs']])
         try:
-            run_history(sc, fail, seen=lambda k, si, sc=sc: ctx.seen(k, [sc, si]))
+            run_history(sc, fail, seen=lambda k, si, sc_enc=sc_enc: ctx.seen(k, [sc_enc, si]))
         except Exception as e:                     # noqa
             ctx.count('nest:build_error')
             ctx.notes.setdefault('nest_build_errors', []).append(repr(e)[:300])
